@@ -341,7 +341,7 @@ def check_tree(rec, label, tree, wrong_root=True):
             if outcome != "ValueError":
                 report(
                     rec,
-                    obligation=obligation("xml", "loads/raise:C04.wrong-root-rejected"),
+                    obligation=obligation("xml", "loads/raise:C04.wrong-root-tag-rejected"),
                     what="document with root <%s> loaded with root_tag=%r: expected ValueError, observed %s"
                          % (wtag, rtag, outcome),
                     replay={"kind": "wrong-root", "write_tag": wtag, "read_tag": rtag, "tree": etree},
@@ -359,6 +359,190 @@ def wrong_root_outcome(write_tag, read_tag, tree):
     except Exception as err:
         return "%s: %s" % (type(err).__name__, str(err)[:80])
     return "accepted -> " + show(out)
+
+
+# ---------------------------------------------------------------------------------------------------------------
+# Near-miss root tags (XML) and root keys (YAML), exact tags/keys with every option, falsy content under a root key
+# ---------------------------------------------------------------------------------------------------------------
+
+ROOT_TAGS = ["config", "c", "app.config", "my-config", "my_config", "AppConfig"]
+ROOT_KEYS = ROOT_TAGS + ["CONFIG", "", None]
+OB_WRONG_ROOT = "formats.xml:XmlConfigFormat.loads/raise:C04.wrong-root-tag-rejected"
+OB_NEAR_KEY = "formats.yaml:YamlConfigFormat.loads/post:C04.near-miss-root-key-not-unwrapped"
+
+
+def near_misses(expected, xml_names_only):
+    """[(kind, actual)]: names that almost are `expected`"""
+    out = []
+
+    def add(kind, actual):
+        if actual and actual != expected and (kind, actual) not in out and (not xml_names_only or _XML_NAME.match(actual)):
+            out.append((kind, actual))
+
+    for suffix in ("s", "2", ".bak", "-x", "_", expected):
+        add("prefix-match", expected + suffix)          # the expected tag is a proper prefix of the actual one
+    for prefix in ("app", "my.", "x-", "_", "C"):
+        add("suffix-match", prefix + expected)          # ... a proper suffix of the actual one ('appconfig', 'my.config')
+    for n in (1, len(expected) // 2, len(expected) - 1):
+        add("proper-prefix", expected[:n])              # the actual tag is a proper prefix of the expected one
+        add("proper-suffix", expected[len(expected) - n:])
+    for variant in (expected.swapcase(), expected.upper(), expected.lower(), expected.capitalize(), expected.title()):
+        add("case", variant)
+    for i in sorted({0, len(expected) // 2, len(expected) - 1}):
+        repl = "x" if expected[i] != "x" else "y"
+        add("one-char-changed", expected[:i] + repl + expected[i + 1:])
+    return out
+
+
+def hand_xml(tag, tree):
+    """a compact hand-written document (no XML declaration, no pretty printing, no type attribute on the root)"""
+    def elem(key, value):
+        if isinstance(value, dict):
+            return '<%s type="dict">%s</%s>' % (key, "".join(elem(k, v) for k, v in value.items()), key)
+        if isinstance(value, int):
+            return '<%s type="int">%d</%s>' % (key, value, key)
+        return '<%s type="str">%s</%s>' % (key, value, key)
+    return ("<%s>%s</%s>" % (tag, "".join(elem(k, v) for k, v in tree.items()), tag)).encode()
+
+
+def xml_document(actual, tree, source, expected=None):
+    if source == "dumps":
+        return get_format("xml", {"root_tag": actual}).dumps(None, tree)
+    if source == "handwritten":
+        return hand_xml(actual, tree)
+    if source == "nested-dumps":     # the expected tag one level down, under another root
+        return get_format("xml", {"root_tag": actual}).dumps(None, {expected: tree})
+    if source == "nested-handwritten":
+        return hand_xml(actual, {expected: tree})
+    raise ValueError(source)
+
+
+def xml_load_outcome(data, options):
+    """'ValueError' | other exception text | ('ok', tree)"""
+    try:
+        out = get_format("xml", options).loads(None, data)
+    except ValueError as err:
+        if type(err) is ValueError or err.__class__.__module__.startswith("cincoconfig"):
+            return "ValueError"
+        return "%s: %s" % (type(err).__name__, str(err)[:80])
+    except Exception as err:
+        return "%s: %s" % (type(err).__name__, str(err)[:80])
+    return ("ok", out)
+
+
+def root_trees(expected):
+    trees = [("empty", {}), ("flat", {"k": 1}), ("mixed", {"config": "x", "k": {"j": 2}})]
+    if expected:
+        trees.append(("child-named-like-root", {expected: {"k": 1}}))
+    return trees
+
+
+def read_options_for(expected):
+    """every option value that makes `expected` the expected root tag"""
+    return [{"root_tag": expected}] + ([{}] if expected == "config" else [])
+
+
+def check_xml_near_miss(rec, expected, kind, actual, source, tlabel, tree, options):
+    data = xml_document(actual, tree, source, expected)
+    outcome = xml_load_outcome(data, options)
+    rec.case(key=("xml-near-miss", expected, actual, source, tlabel, json.dumps(options, sort_keys=True)), nontrivial=True,
+             sample=({"kind": "root-tag:" + kind, "expected_tag": expected, "document_root": actual, "source": source}
+                     if (expected, kind, source, tlabel) in (("config", "suffix-match", "dumps", "flat"),
+                                                              ("app.config", "nested", "nested-handwritten", "flat")) else None))
+    if outcome != "ValueError":
+        report(rec, obligation=OB_WRONG_ROOT,
+               what="document with root <%s> (%s, %s) loaded with %s (expected tag %r): expected ValueError, observed %s"
+                    % (actual, kind, source, options or "default options", expected,
+                       "accepted -> " + show(outcome[1]) if isinstance(outcome, tuple) else outcome),
+               replay={"kind": "root-tag-near-miss", "near": kind, "expected_tag": expected, "actual_tag": actual, "source": source,
+                       "options": options, "tree": enc(tree)},
+               witness_key="root-tag:" + kind)
+
+
+def check_xml_exact(rec, expected, source, tlabel, tree, options):
+    outcome = xml_load_outcome(xml_document(expected, tree, source), options)
+    rec.case(key=("xml-exact-root", expected, source, tlabel, json.dumps(options, sort_keys=True)), nontrivial=True)
+    if not (isinstance(outcome, tuple) and strict_eq(outcome[1], tree)):
+        report(rec, obligation=obligation("xml", "loads/post:C04.decodes-what-it-encodes"),
+               what="document with the exact root <%s> (%s) loaded with %s: expected %s, observed %s"
+                    % (expected, source, options or "default options", show(tree),
+                       show(outcome[1]) if isinstance(outcome, tuple) else outcome),
+               replay={"kind": "root-tag-exact", "expected_tag": expected, "source": source, "options": options, "tree": enc(tree)},
+               witness_key="root-tag:exact/%s" % expected)
+
+
+def check_root_tags(rec):
+    for expected in ROOT_TAGS:
+        for tlabel, tree in root_trees(expected):
+            for options in read_options_for(expected):
+                for source in ("dumps", "handwritten"):
+                    check_xml_exact(rec, expected, source, tlabel, tree, options)
+                    for kind, actual in near_misses(expected, xml_names_only=True):
+                        check_xml_near_miss(rec, expected, kind, actual, source, tlabel, tree, options)
+                for source in ("nested-dumps", "nested-handwritten"):
+                    for outer in ("root", "wrapper", expected + "s"):
+                        check_xml_near_miss(rec, expected, "nested", outer, source, tlabel, tree, options)
+    # the default tag is 'config': documents written with default options and read with the explicit tag, and back
+    for tlabel, tree in root_trees("config"):
+        for wopt, ropt in (({}, {"root_tag": "config"}), ({"root_tag": "config"}, {})):
+            data = get_format("xml", wopt).dumps(None, tree)
+            outcome = xml_load_outcome(data, ropt)
+            rec.case(key=("xml-default-tag", tlabel, json.dumps(wopt), json.dumps(ropt)), nontrivial=True)
+            if not (isinstance(outcome, tuple) and strict_eq(outcome[1], tree)):
+                report(rec, obligation=obligation("xml", "loads/post:C04.options-do-not-change-result"),
+                       what="written with %s, read with %s: expected %s, observed %s" % (wopt, ropt, show(tree), outcome),
+                       replay={"kind": "root-tag-exact", "expected_tag": "config", "source": "dumps", "options": ropt, "tree": enc(tree)},
+                       witness_key="root-tag:default-is-config")
+
+
+def yaml_near_miss_result(root_key, document):
+    data = get_format("yaml", {}).dumps(None, document)
+    try:
+        return ("ok", get_format("yaml", {"root_key": root_key}).loads(None, data))
+    except Exception as err:
+        return ("exc", "%s: %s" % (type(err).__name__, str(err)[:100]))
+
+
+def check_root_keys(rec):
+    subs = [("map", {"k": 1}), ("empty-map", {}), ("zero", 0), ("empty-string", "")]
+    for root_key in ROOT_KEYS:
+        # near-miss top-level keys: the whole document is the result
+        if root_key:
+            docs = []
+            for kind, actual in near_misses(root_key, xml_names_only=False):
+                for slabel, sub in subs:
+                    docs.append((kind, "%s/%s" % (actual, slabel), {actual: copy_tree(sub)}))
+                docs.append((kind, "%s/with-sibling" % actual, {actual: {"k": 1}, "other": [root_key]}))
+            for slabel, sub in subs:
+                docs.append(("nested", "wrapper/" + slabel, {"wrapper": {root_key: copy_tree(sub)}}))
+            docs.append(("value-not-key", "value", {"k": root_key, "l": [root_key]}))
+            for kind, dlabel, document in docs:
+                res = yaml_near_miss_result(root_key, document)
+                rec.case(key=("yaml-near-miss", root_key, dlabel), nontrivial=True,
+                         sample=({"kind": "root-key:" + kind, "root_key": root_key, "document": show(document)}
+                                 if (root_key, dlabel) == ("config", "appconfig/map") else None))
+                if res[0] != "ok" or not strict_eq(res[1], document):
+                    report(rec, obligation=OB_NEAR_KEY,
+                           what="YAML document %s loaded with root_key=%r (%s): expected the whole document, observed %s"
+                                % (show(document), root_key, kind, show(res[1])),
+                           replay={"kind": "root-key-near-miss", "near": kind, "root_key": root_key, "document": enc(document)},
+                           witness_key="root-key:" + kind)
+        # empty tree and falsy content round-trip under every root key (incl. '' and None), also under a key equal to it
+        falsy = [("empty-tree", {}), ("zero", {"a": 0}), ("empty-string", {"a": ""}), ("empty-list", {"a": []}),
+                 ("empty-map", {"a": {}}), ("false", {"a": False}), ("none", {"a": None}), ("float-zero", {"a": 0.0}),
+                 ("all", {"a": 0, "b": "", "c": [], "d": {}, "e": False, "f": None})]
+        if root_key:
+            falsy += [("key-equals-root-key:" + l, {root_key: copy_tree(v)})
+                      for l, v in (("zero", 0), ("empty-string", ""), ("empty-list", []), ("empty-map", {}), ("none", None))]
+        for flabel, tree in falsy:
+            options = {"root_key": root_key}
+            res = roundtrip("yaml", options, tree)
+            rec.case(key=("yaml-falsy", repr(root_key), flabel), nontrivial=True)
+            if res[0] == "exc" or not strict_eq(res[1], tree):
+                report(rec, obligation=obligation("yaml", "loads/post:C04.decodes-what-it-encodes"),
+                       what="yaml root_key=%r: loads(dumps(t)) != t; expected %s observed %s" % (root_key, show(tree), show(res[1])),
+                       replay={"kind": "roundtrip", "format": "yaml", "options": options, "tree": enc(tree)},
+                       witness_key="yaml/root-key:%r/%s" % (root_key, flabel.split(":")[0]))
 
 
 def check_registry(rec):
@@ -381,7 +565,8 @@ def rac(tier: str, seed: int) -> dict:
     rec = Recorder(
         PID,
         rule="one case = (tree, format, option value) round trip through the real ConfigFormat.get(name, **opts) "
-             "(+ one per wrong-root XML load, + registry look-ups); trees: every leaf of the value pool in 8 positions "
+             "(+ one per wrong-root / near-miss-root XML load and exact-root load, + one per near-miss root-key YAML load "
+             "and falsy-content root-key round trip, + registry look-ups); trees: every leaf of the value pool in 8 positions "
              "(root/list/map/list.list/list.map/map.list/map.map/siblings), every key of the key pool in 4 positions, "
              "every ordered pair of the 17-element type-confusion set side by side in a list and in a map, then seeded "
              "random trees; a (tree, format) pair outside the format's stated domain is skipped, not counted; "
@@ -390,10 +575,16 @@ def rac(tier: str, seed: int) -> dict:
               "subnormal/max, %d strings incl. ''/'true'/'1'/XML-JSON-YAML metacharacters/unicode/C0 controls, None, "
               "[], {}), %d keys; 13 format/option values (json pretty unset/True/False; yaml root_key unset/None/''/"
               "'CONFIG'; xml root_tag unset/'config'/'r'/'CONFIG'; bson; pickle); random trees: quick 250, thorough "
-              "until the budget is used" % (len(LEAVES), len(STRINGS), len(KEYS)),
+              "until the budget is used; root tags %r x near misses (prefix-match, suffix-match, proper-prefix, "
+              "proper-suffix, case, one-char-changed, nested under another root) x 4 trees x real-dumps/hand-written "
+              "documents x every option value naming the tag; YAML root keys %r x the same near misses as top-level "
+              "keys (whole document expected) and 9-14 empty/falsy trees each"
+              % (len(LEAVES), len(STRINGS), len(KEYS), ROOT_TAGS, ROOT_KEYS),
         tier=tier, seed=seed)
     with sandbox():
         check_registry(rec)
+        check_root_tags(rec)
+        check_root_keys(rec)
         for label, tree in grammar_trees():
             check_tree(rec, label, tree, wrong_root=label.endswith("@root") or label == "empty-root")
         n_random = 250 if tier == "quick" else 10 ** 9
@@ -422,7 +613,20 @@ def replay(case: dict) -> dict:
             _mod, cls = FORMAT_CLASS[case["format"]]
             ok = type(f).__name__ == cls and all(getattr(f, k) == v for k, v in case["options"].items())
             return {"fails": not ok, "expected": cls + " with " + json.dumps(case["options"]), "observed": repr(f)}
+        if kind == "root-key-near-miss":
+            document = dec(case["document"])
+            res = yaml_near_miss_result(case["root_key"], document)
+            return {"fails": res[0] != "ok" or not strict_eq(res[1], document), "expected": "the whole document " + show(document),
+                    "observed": show(res[1])}
         tree = dec(case["tree"])
+        if kind == "root-tag-near-miss":
+            outcome = xml_load_outcome(xml_document(case["actual_tag"], tree, case["source"], case["expected_tag"]), case["options"])
+            return {"fails": outcome != "ValueError", "expected": "ValueError",
+                    "observed": "accepted -> " + show(outcome[1]) if isinstance(outcome, tuple) else outcome}
+        if kind == "root-tag-exact":
+            outcome = xml_load_outcome(xml_document(case["expected_tag"], tree, case["source"]), case["options"])
+            ok = isinstance(outcome, tuple) and strict_eq(outcome[1], tree)
+            return {"fails": not ok, "expected": show(tree), "observed": show(outcome[1]) if isinstance(outcome, tuple) else outcome}
         if kind == "roundtrip":
             res = roundtrip(case["format"], case["options"], tree)
             fails = res[0] == "exc" or not strict_eq(res[1], tree)
